@@ -352,8 +352,17 @@ PlacesFail(hj) ==
         \cup (IF hj.state = "won" /\ Cardinality(T) # 1 THEN {"won_without_single_leader"} ELSE {})
         \cup (IF hj.state = "finished" /\ Cardinality({b \in DOMAIN P : P[b] = 1}) > 1 THEN {"tie_for_first_left_standing"} ELSE {})
         \cup (IF Cardinality(T) <= 1 /\ P # CB THEN {"places_differ_from_countback"} ELSE {})
-        \cup (IF Cardinality(T) > 1 /\ hj.state = "drawn" /\
-                 ~(\A b \in DOMAIN P : P[b] = CB[b]) THEN {"drawn_places_differ_from_countback"} ELSE {})
+        \* drawn: the participants who were still in when the last of them retired share first place,
+        \* members of the tie beaten earlier in the jump-off stay ahead of everybody who was not tied
+        \cup (IF Cardinality(T) > 1 /\ hj.state = "drawn" THEN
+                 LET ks == {k \in nr..NH(hj) : Active(hj, nr, k) = {}}
+                     kd == IF ks = {} THEN nr ELSE CHOOSE k \in ks : \A q \in ks : k <= q
+                     D == IF kd = nr THEN T ELSE Active(hj, nr, kd - 1)
+                 IN (IF \A b \in D : P[b] = 1 THEN {} ELSE {"drawn_participants_do_not_share_first"})
+                    \cup (IF \A b \in T : P[b] >= 1 /\ P[b] <= Cardinality(T) THEN {} ELSE {"jumpoff_member_outside_top"})
+                    \cup (IF \A b \in T : \A c \in DOMAIN P \ T : P[c] = 0 \/ P[b] < P[c] THEN {} ELSE {"jumpoff_member_behind_untied"})
+                    \cup (IF \A c \in DOMAIN P \ T : P[c] = CB[c] THEN {} ELSE {"untied_place_changed"})
+              ELSE {})
         \cup (IF Cardinality(T) > 1 /\ hj.state = "finished" THEN
                  (IF Cardinality(S) = 1 /\ \A s \in S : P[s] = 1 THEN {} ELSE {"jumpoff_survivor_not_first"})
                  \cup (IF \A b \in T : P[b] >= 1 /\ P[b] <= Cardinality(T) THEN {} ELSE {"jumpoff_member_outside_top"})
